@@ -193,10 +193,12 @@ pub struct Case {
     pub qname: LName, // case as sent
     pub qtype: u16,
     pub dnssec_ok: bool,
+    /// mode `n`: the store after signing (NSEC chain, DNSKEY, RRSIG labels), as `dump_store` prints it
+    pub store: Option<String>,
 }
 
 pub fn case_line(c: &Case) -> String {
-    format!(
+    let mut l = format!(
         "q {} {} {} {} {} {}",
         c.mode,
         name_txt(&c.origin),
@@ -204,12 +206,26 @@ pub fn case_line(c: &Case) -> String {
         name_txt(&c.qname),
         ty_name(c.qtype),
         b(c.dnssec_ok)
-    )
+    );
+    if let Some(st) = &c.store {
+        l.push(' ');
+        l.push_str(st);
+    }
+    l
 }
 
 fn case_parse(t: &[&str]) -> Option<Case> {
     match t {
+        ["q", mode, origin, zone, qname, qtype, d, store] => {
+            let mut c = case_parse(&["q", mode, origin, zone, qname, qtype, d])?;
+            if c.mode != 'n' {
+                return None;
+            }
+            c.store = Some(store.to_string());
+            Some(c)
+        }
         ["q", mode, origin, zone, qname, qtype, d] => Some(Case {
+            store: None,
             mode: match *mode {
                 "u" => 'u',
                 "n" => 'n',
@@ -320,12 +336,73 @@ thread_local! {
     static RT: tokio::runtime::Runtime = tokio::runtime::Builder::new_current_thread().enable_all().build().expect("rt");
     static KEY: Vec<u8> = Ed25519SigningKey::generate_pkcs8().expect("key").secret_pkcs8_der().to_vec();
     /// last catalog built (most runs query one zone many times)
-    static CACHE: std::cell::RefCell<Option<(String, Option<Arc<Catalog>>)>> = const { std::cell::RefCell::new(None) };
+    static CACHE: std::cell::RefCell<Option<(String, Option<(Arc<Catalog>, Option<Vec<StoreRs>>)>)>> = const { std::cell::RefCell::new(None) };
+}
+
+/// one RRset of the signed store
+#[derive(Clone, Debug, PartialEq, Eq)]
+pub struct StoreRs {
+    pub name: LName,
+    pub ty: u16,
+    pub rds: Vec<Rd>,
+    /// NSEC: the type bitmap
+    pub types: Vec<u16>,
+    /// labels field of the RRset's RRSIG
+    pub sig_labels: Option<u8>,
+}
+
+fn store_txt(st: &[StoreRs]) -> String {
+    st.iter()
+        .map(|r| {
+            let mut rds: Vec<String> = r.rds.iter().map(rd_txt).collect();
+            if r.ty == T_NSEC {
+                rds[0] = format!("{}~{}", rds[0], r.types.iter().map(|t| ty_name(*t)).collect::<Vec<_>>().join(","));
+            }
+            format!(
+                "{}/{}/{}{}",
+                name_txt(&r.name),
+                ty_name(r.ty),
+                rds.join("+"),
+                r.sig_labels.map(|l| format!("/s{l}")).unwrap_or_default()
+            )
+        })
+        .collect::<Vec<_>>()
+        .join(";")
+}
+
+fn dump_store(h: &mut InMemoryZoneHandler<TokioRuntimeProvider>) -> Option<Vec<StoreRs>> {
+    let mut v = vec![];
+    for rs in h.records_get_mut().values() {
+        let ty = u16::from(rs.record_type());
+        let mut types = vec![];
+        let mut rds = vec![];
+        for r in rs.records_without_rrsigs() {
+            match &r.data {
+                RData::DNSSEC(DNSSECRData::NSEC(n)) => {
+                    types = n.type_bit_maps().map(u16::from).collect();
+                    types.sort();
+                    rds.push(Rd { tag: 0, target: Some(from_name(n.next_domain_name())) });
+                }
+                RData::DNSSEC(DNSSECRData::DNSKEY(_)) => rds.push(Rd { tag: 0, target: None }),
+                d => rds.push(from_rdata(d)?),
+            }
+        }
+        let mut sigs = rs.records(true).filter_map(|r| match &r.data {
+            RData::DNSSEC(DNSSECRData::RRSIG(s)) => Some(s.input().num_labels),
+            _ => None,
+        });
+        let sig_labels = sigs.next();
+        if sigs.next().is_some() {
+            return None;
+        }
+        v.push(StoreRs { name: from_name(rs.name()), ty, rds, types, sig_labels });
+    }
+    Some(v)
 }
 
 /// Builds the handler from the RRsets of the case; `None` if a record was refused by `upsert_mut`
 /// or the store does not iterate in the order of the case line.
-fn build_catalog(c: &Case) -> Option<Arc<Catalog>> {
+fn build_catalog(c: &Case) -> Option<(Arc<Catalog>, Option<Vec<StoreRs>>)> {
     let key = format!("{} {} {}", c.mode, name_txt(&c.origin), zone_txt(&c.zone));
     if let Some(hit) = CACHE.with(|k| k.borrow().as_ref().filter(|(s, _)| *s == key).map(|(_, v)| v.clone())) {
         return hit;
@@ -335,7 +412,7 @@ fn build_catalog(c: &Case) -> Option<Arc<Catalog>> {
     built
 }
 
-fn build_catalog_uncached(c: &Case) -> Option<Arc<Catalog>> {
+fn build_catalog_uncached(c: &Case) -> Option<(Arc<Catalog>, Option<Vec<StoreRs>>)> {
     let origin = to_name(&c.origin);
     let kind = match c.mode {
         'n' => Some(NxProofKind::Nsec),
@@ -385,9 +462,10 @@ fn build_catalog_uncached(c: &Case) -> Option<Arc<Catalog>> {
         h.add_zone_signing_key_mut(signer).ok()?;
         h.secure_zone_mut().ok()?;
     }
+    let store = if c.mode == 'n' { Some(dump_store(&mut h)?) } else { None };
     let mut cat = Catalog::new();
     cat.upsert(LowerName::new(&origin), vec![Arc::new(h) as Arc<dyn ZoneHandler>]);
-    Some(Arc::new(cat))
+    Some((Arc::new(cat), store))
 }
 
 /// how an rdata of the case line reads back from the wire (NS/CNAME carry no tag, SOA none)
@@ -804,6 +882,124 @@ fn check_any(c: &Case, exp: &Expected, r: &Resp, qn: &LName) -> Vec<(&'static st
 }
 
 // ------------------------------------------------------------------------------------------
+// DO=1 on a signed zone: RRSIGs on every authoritative RRset, denial proofs on negative and
+// wildcard answers (RFC 4035 §3.1.1-§3.1.3; NSEC3: RFC 5155 §7.2, presence only).
+// ------------------------------------------------------------------------------------------
+
+/// RFC 4034 §6.1 canonical ordering key
+fn canon_key(n: &LName) -> Vec<Vec<u8>> {
+    n.iter().rev().map(|l| l.to_ascii_lowercase().into_bytes()).collect()
+}
+
+struct NsecRec {
+    owner: LName,
+    next: LName,
+    types: Vec<String>,
+}
+
+fn nsecs_of(sec: &[OutRs]) -> Vec<NsecRec> {
+    let mut v = vec![];
+    for rs in sec.iter().filter(|r| r.ty == T_NSEC) {
+        for rd in &rs.rds {
+            if let Some((next, tys)) = rd.split_once(':') {
+                if let Some(next) = name_parse(next) {
+                    v.push(NsecRec { owner: rs.name.clone(), next, types: tys.split(',').map(String::from).collect() });
+                }
+            }
+        }
+    }
+    v
+}
+
+/// the NSEC proves that no name exists strictly between its owner and its next name
+fn nsec_covers(n: &NsecRec, x: &LName) -> bool {
+    let (o, nx, k) = (canon_key(&n.owner), canon_key(&n.next), canon_key(x));
+    o < k && (k < nx || nx <= o)
+}
+
+fn check_signed(c: &Case, exp: &Expected, r: &Resp, qn: &LName) -> Vec<(&'static str, String)> {
+    let mut f: Vec<(&'static str, String)> = vec![];
+    let z = RefZone::new(&c.origin, &c.zone);
+    if exp.refused || r.rcode == "REFUSED" {
+        return f;
+    }
+    // S1: every authoritative RRset of the answer and authority sections carries an RRSIG
+    for (sname, sec) in [("answer", &r.an), ("authority", &r.ns)] {
+        for rs in sec.iter().filter(|x| x.ty != T_RRSIG) {
+            let delegation_ns = rs.ty == T_NS && rs.name != c.origin && z.get(&rs.name, T_NS).is_some();
+            if delegation_ns {
+                continue;
+            }
+            let want = format!("{}.", ty_name(rs.ty));
+            let signed = sec.iter().any(|x| x.ty == T_RRSIG && x.name == rs.name && x.rds.iter().any(|d| d.starts_with(&want)));
+            if !signed {
+                f.push(("rrsig-missing", format!("{} section: {} {} has no RRSIG", sname, name_txt(&rs.name), ty_name(rs.ty))));
+            }
+        }
+    }
+    // S2: denial of existence for what the response claims
+    let an = data_only(&r.an);
+    let is_referral = r.ns.iter().any(|x| x.ty == T_NS && x.name != c.origin);
+    let negative = r.rcode == "NXDOMAIN" || (r.rcode == "NOERROR" && an.is_empty() && !is_referral);
+    // a wildcard expansion shows in the RRSIG labels field
+    let wildcard_answer = r.an.iter().any(|x| {
+        let owner_labels = if x.name.first().is_some_and(|l| l == "*") { x.name.len() - 1 } else { x.name.len() };
+        x.ty == T_RRSIG && x.rds.iter().any(|d| d.rsplit_once('.').and_then(|(_, l)| l.parse::<usize>().ok()).is_some_and(|l| l < owner_labels))
+    });
+    if !(negative || wildcard_answer) {
+        return f;
+    }
+    if c.mode == '3' {
+        if !r.ns.iter().any(|x| x.ty == T_NSEC3) {
+            f.push(("denial-missing", format!("{} answer without any NSEC3 record", if negative { "negative" } else { "wildcard" })));
+        }
+        return f;
+    }
+    let nsecs = nsecs_of(&r.ns);
+    let covering = |x: &LName| nsecs.iter().any(|n| nsec_covers(n, x));
+    let tyq = ty_name(c.qtype);
+    if wildcard_answer && !negative {
+        if !covering(qn) {
+            f.push(("denial-missing", format!("wildcard answer without an NSEC covering {}", name_txt(qn))));
+        }
+        return f;
+    }
+    // closest encloser and the wildcard below it, from the zone itself
+    let mut ce = qn.clone();
+    while !ce.is_empty() && !z.exists(&ce) {
+        ce = ce[1..].to_vec();
+    }
+    let mut wild = vec!["*".to_string()];
+    wild.extend(ce.iter().cloned());
+    let matching_without_type = |x: &LName| {
+        nsecs.iter().any(|n| n.owner == *x && !n.types.contains(&tyq) && (c.qtype == T_CNAME || !n.types.contains(&"CNAME".to_string())))
+    };
+    if r.rcode == "NXDOMAIN" {
+        if !covering(qn) {
+            f.push(("denial-missing", format!("NXDOMAIN without an NSEC covering {}", name_txt(qn))));
+        }
+        if !covering(&wild) {
+            f.push(("denial-missing", format!("NXDOMAIN without an NSEC covering the wildcard {}", name_txt(&wild))));
+        }
+    } else if z.nodes.contains_key(qn) {
+        if !matching_without_type(qn) {
+            f.push(("denial-missing", format!("NODATA without the NSEC of {} (type bitmap without {})", name_txt(qn), tyq)));
+        }
+    } else if z.exists(qn) {
+        // empty non-terminal
+        if !covering(qn) {
+            f.push(("denial-missing", format!("NODATA at the empty non-terminal {} without an NSEC covering it", name_txt(qn))));
+        }
+    } else {
+        // wildcard NODATA
+        if !covering(qn) || !matching_without_type(&wild) {
+            f.push(("denial-missing", format!("wildcard NODATA needs an NSEC covering {} and the NSEC of {}", name_txt(qn), name_txt(&wild))));
+        }
+    }
+    f
+}
+
+// ------------------------------------------------------------------------------------------
 // deviation classes — the decidable predicates of lean/HickoryVerif/Model/AuthZoneDev.lean,
 // re-implemented here; every `q` case is followed by a `dev` case on which the two are compared.
 // ------------------------------------------------------------------------------------------
@@ -1055,9 +1251,23 @@ pub fn exec(line: &str, rec: &mut Recorder) {
     } else {
         line
     };
-    let Some(cat) = build_catalog(&c) else {
+    let Some((cat, store)) = build_catalog(&c) else {
         rec.stat("skipped.zone-not-stored-as-written");
         return;
+    };
+    // signed (NSEC) zones: the case line carries the store after signing — what the model runs on
+    let line_signed;
+    let line = if let Some(st) = &store {
+        let txt = store_txt(st);
+        if c.store.as_ref().is_some_and(|x| *x != txt) {
+            rec.stat("skipped.signed-store-differs-from-case-line");
+            return;
+        }
+        c.store = Some(txt);
+        line_signed = case_line(&c);
+        &line_signed[..]
+    } else {
+        line
     };
     let r = catch(|| ask(&cat, &c));
     let resp = match r {
@@ -1073,7 +1283,13 @@ pub fn exec(line: &str, rec: &mut Recorder) {
             return;
         }
     };
-    let idx = rec.case(line.to_string(), resp_txt(&resp));
+    let shown = resp_txt(&resp);
+    let idx = if c.mode != '3' {
+        rec.case(line.to_string(), shown.clone())
+    } else {
+        rec.impl_only += 1;
+        rec.case(line.to_string(), "~".into())
+    };
     let qn = lower(&c.qname);
     let exp = reference(&c.origin, &c.zone, &qn, c.qtype);
     rec.stat("op.q");
@@ -1103,7 +1319,11 @@ pub fn exec(line: &str, rec: &mut Recorder) {
         rec.stat("oracle.skipped.ill-formed-zone");
         return;
     }
-    let fails = if c.qtype == T_ANY { check_any(&c, &exp, &resp, &qn) } else { check(&c, &exp, &resp) };
+    let mut fails = if c.qtype == T_ANY { check_any(&c, &exp, &resp, &qn) } else { check(&c, &exp, &resp) };
+    if c.mode != 'u' && c.dnssec_ok && fails.iter().all(|(cl, _)| *cl == "referral-aa") {
+        // the answer itself is the prescribed one: now its signatures and denial proofs
+        fails.extend(check_signed(&c, &exp, &resp, &qn));
+    }
     if fails.is_empty() {
         rec.stat("oracle.ok");
         return;
@@ -1112,7 +1332,7 @@ pub fn exec(line: &str, rec: &mut Recorder) {
     for (clause, what) in fails {
         let class = classify(&classes, clause);
         rec.stat(&format!("oracle-fail.{}", if class.is_empty() { clause } else { &class }));
-        rec.fail(idx, format!("{clause}: {what}"), &class);
+        rec.fail(idx, format!("{clause}: {what}{}", if c.mode == 'u' { String::new() } else { format!(" [response: {shown}]") }), &class);
     }
 }
 
@@ -1442,7 +1662,7 @@ fn exhaustive(rec: &mut Recorder) {
         let z = canon_zone(z);
         for (i, qn) in qnames.iter().enumerate() {
             for (j, qt) in QTYPES.iter().enumerate() {
-                let c = Case { mode: 'u', origin: o.clone(), zone: z.clone(), qname: qn.clone(), qtype: *qt, dnssec_ok: false };
+                let c = Case { mode: 'u', origin: o.clone(), zone: z.clone(), qname: qn.clone(), qtype: *qt, dnssec_ok: false, store: None };
                 let l = case_line(&c);
                 exec(&l, rec);
                 if (code + i + j) % 5 == 0 {
@@ -1483,8 +1703,13 @@ pub fn run(o: &Opts, rec: &mut Recorder) {
                 if r.chance(1, 10) {
                     qn = qn.iter().map(|l| l.to_ascii_uppercase()).collect();
                 }
-                let c = Case { mode: 'u', origin: origin.clone(), zone: z.clone(), qname: qn, qtype: qt, dnssec_ok: r.chance(1, 8) };
+                let c = Case { mode: 'u', origin: origin.clone(), zone: z.clone(), qname: qn.clone(), qtype: qt, dnssec_ok: r.chance(1, 8), store: None };
                 exec_both(&c, rec);
+                if zi % 4 == 0 && dev::zone_wf(&z, &origin) {
+                    let mode = if r.chance(3, 4) { 'n' } else { '3' };
+                    let c = Case { mode, origin: origin.clone(), zone: z.clone(), qname: qn, qtype: qt, dnssec_ok: !r.chance(1, 6), store: None };
+                    exec_both(&c, rec);
+                }
             }
         }
     }
